@@ -13,6 +13,11 @@
    logging level is an environment parameter of the specification that no decision may depend on.
 3. code -> spec: the recorded decisions, sink contacts, metrics statuses are validated line by line by TLC
    (AddrPolicyTrace): property layer = verdict, mechanism layer = drift.
+3b. concurrent stage (AddrPolicyConc.tla): two Handle loops on ONE packet handler as two processes that share nothing per
+   datagram => ConcNoPrivateContact / ConcOwnDestination (exhaustive; the NEGATIVE configuration with the decoded target
+   in one shared cell must be refuted); TLC generates the two loops' destination lists (-simulate), the driver runs one
+   real NewPacketHandler (DEFAULT validator) behind two listeners / two Handle goroutines / two clients for ~2 s, and
+   what the sinks received goes back to TLC as Conc / CSent events (kind "private-contact").
 4. sweep: IPv4 per /24 (quick) or all 2^32 addresses (thorough), both byte forms, and IPv6 by prefix class x boundaries x
    seeded random fill, against the table TLC exported; candidates are confirmed by TLC before they become a verdict.
 """
@@ -29,6 +34,8 @@ ASSUME = [
     "100.64.0.1, ...) the ERR_ADDRESS_* status reported to the metrics is the observation",
     "UDP: a datagram is attributed to its position through the ShadowsocksConnMetrics.AddCipherSearch callback of the "
     "single-threaded handler loop; sinks are drained 300 ms after the last scenario",
+    "concurrent stage: the two Handle goroutines interleave as the Go scheduler lets them (~2.5 s, tens of thousands of "
+    "datagrams); only arrivals at the sinks are observations, the first 40 per (client, sink) are given to TLC",
     "TLC 1.8.0, the Json community module, the Go toolchain, the kernel's local delivery of TCP/UDP",
 ]
 
@@ -120,13 +127,13 @@ def dedupe(behs):
 def scenario_around(rows, line):
     """(behaviour, trace slice) of the scenario that contains 1-based trace line `line`"""
     i = line - 1
-    if rows[i]["ev"] in ("Dec", "Orphan"):
+    if rows[i]["ev"] in ("Dec", "Orphan", "Conc", "CSent"):
         return None, [rows[i]]
     start = i
     while start > 0 and rows[start]["ev"] not in ("Tcp", "Udp"):
         start -= 1
     end = i + 1
-    while end < len(rows) and rows[end]["ev"] not in ("Tcp", "Udp", "Dec", "Orphan"):
+    while end < len(rows) and rows[end]["ev"] not in ("Tcp", "Udp", "Dec", "Orphan", "Conc", "CSent"):
         end += 1
     sl = rows[start:end]
     beh = []
@@ -165,6 +172,15 @@ def validate(ctx, table, trace_path, desc, timeout=1800):
             what = "%s: RequirePublicIP(%s, %d-byte form) returned %s" % (
                 KIND_TEXT[kind], fmt_addr(row["a"]), row["form"], row["status"])
             rep = {"kind": "table", "addrs": [{"a": row["a"], "cls": "?"}], "trace": sl}
+        elif row["ev"] == "CSent":
+            d = row["d"]
+            where = "udp+concurrent-loops:%s/t%s:%s->%s" % (d.get("k"), d.get("t"), block_of(table, d.get("a")),
+                                                           block_of(table, row["a"]))
+            what = ("%s: two Handle loops on ONE packet handler (one per listener, default validator): datagram %d of "
+                    "client %d, intended for %s (%s), arrived at the sink on %s (%s)" % (
+                        KIND_TEXT[kind], row["seq"], row["loop"], fmt_dest(d), block_of(table, d.get("a")),
+                        fmt_addr(row["a"]), block_of(table, row["a"])))
+            rep = {"kind": "conc", "trace": [row]}
         elif row["ev"] == "Orphan":
             where = "unattributed:%s" % block_of(table, row["a"])
             what = "%s: sink %s saw traffic that carries no scenario token" % (KIND_TEXT[kind], fmt_addr(row["a"]))
@@ -204,6 +220,53 @@ def run_driver(ctx, drv, args, what, timeout=900):
     rc, out, err = vlib.run([drv] + args, env=vlib.goenv(), timeout=timeout)
     if rc != 0:
         raise vlib.Inconclusive("addrpolicy %s failed (rc=%d): %s" % (what, rc, (err or out)[-2000:]))
+
+
+def conc_stage(ctx, drv, table, tf, design=True):
+    """two Handle loops on one packet handler: AddrPolicyConc (design + negative control), generated destination lists,
+    the real handler behind two listeners, verdict by AddrPolicyTrace (Conc / CSent)"""
+    if design:
+        r = vlib.tlc(ctx, "AddrPolicyConc", "MC_AddrPolicyConc.cfg", workers=4, timeout=600, deadlock=False)
+        ctx.add_tlc(r, "exhaustive: concurrent Handle loops share nothing per datagram (MC_AddrPolicyConc.cfg)")
+        if not r.ok:
+            raise vlib.Inconclusive("model finding in AddrPolicyConc.tla: %s" % r.violated)
+        r = vlib.tlc(ctx, "AddrPolicyConc", "MC_AddrPolicyConcNeg.cfg", workers=4, timeout=600, deadlock=False)
+        if r.ok or r.violated != "ConcNoPrivateContact":
+            raise vlib.Inconclusive("negative configuration MC_AddrPolicyConcNeg.cfg was not refuted by TLC (%s)" % r.violated)
+        ctx.cov["tlc_runs"].append({"module": "AddrPolicyConc", "cfg": "MC_AddrPolicyConcNeg.cfg", "mode": "bfs",
+                                    "label": "negative: must be refuted", "refuted_by": r.violated,
+                                    "wall_s": round(r.wall, 1)})
+    g = vlib.tlc(ctx, "AddrPolicyConc", "Gen_AddrPolicyConc.cfg", workers=1, timeout=600, simulate=4, depth=100,
+                 deadlock=False)
+    pat = re.compile(r'^<<"CBEH", "(.*)">>$')
+    steps = []
+    for ln in g.prints:
+        m = pat.match(ln.strip())
+        if m:
+            steps += _unq(m.group(1))
+    per = {1: [s for s in steps if s["loop"] == 1], 2: [s for s in steps if s["loop"] == 2]}
+    if not g.ok or len(per[1]) < 24 or len(per[2]) < 24 \
+            or not any(s["cls"] != "reject" for s in per[1]) or not any(s["cls"] == "reject" for s in per[2]):
+        raise vlib.Inconclusive("AddrPolicyConc generated no usable concurrent scenario (%d/%d datagrams): %s" % (
+            len(per[1]), len(per[2]), g.violated))
+    cf, out, inf = (os.path.join(ctx.scratch, n) for n in ("conc.json", "conc.ndjson", "conc_info.json"))
+    json.dump(steps, open(cf, "w"))
+    run_driver(ctx, drv, ["conc", "-in", cf, "-table", tf, "-out", out, "-info", inf, "-dur", "2500ms"], "conc", timeout=300)
+    info = json.load(open(inf))
+    if "[192 0 2 2]" not in info["sinks_bound"] or "[127 0 0 1]" not in info["sinks_bound"]:
+        ctx.cov["skipped"].append("concurrent stage: no sink on 192.0.2.2 / 127.0.0.1")
+        return None
+    own = info["arrived"].get("1@[192 0 2 2]", 0)
+    if min(info["sent"]) < 1000 or own < 500 or sum(v for k, v in info["statuses"].items() if k.startswith("ERR_ADDRESS")) < 500:
+        raise vlib.Inconclusive("concurrent stage established nothing: sent %r, client 1's datagrams at the public sink %d, "
+                                "statuses %r" % (info["sent"], own, info["statuses"]))
+    validate(ctx, table, out, "two concurrent Handle loops on one packet handler, %d + %d datagrams" % tuple(info["sent"]))
+    ctx.cov["evaluations"] += sum(info["sent"])
+    ctx.cov["distinct_nontrivial"] += 1
+    rows = vlib.read_ndjson(out)
+    ctx.sample({"concurrent_loops": {"sent": info["sent"], "arrived": info["arrived"], "statuses": info["statuses"],
+                                     "first": rows[1:3]}})
+    return info
 
 
 def run(ctx):
@@ -285,6 +348,9 @@ def run(ctx):
             ctx.sample({"udp_association": scenario_around(rows, i + 1)[1]})
             break
 
+    # ---- 3b. concurrent Handle loops on one packet handler ---------------------------------------------------------
+    conc = conc_stage(ctx, drv, table, tf)
+
     # ---- 4. sweep ------------------------------------------------------------------------------------------------
     sw = os.path.join(ctx.scratch, "sweep.json")
     run_driver(ctx, drv, ["sweep", "-table", tf, "-mode", "quick" if quick else "full", "-seed", str(ctx.seed), "-out", sw],
@@ -322,6 +388,7 @@ def run(ctx):
                                                                 "by_protocol_and_log_level": by_log,
                                                                 "dns_queries": info["dns_queries"],
                                                                 "sinks": info["sinks_bound"]},
+                               "concurrent_loops": conc and {k: conc[k] for k in ("sent", "arrived", "statuses")},
                                "decision_addresses": len(addrs)})
 
 
@@ -344,6 +411,10 @@ def replay(ctx, path):
         bf = os.path.join(ctx.scratch, "behs.json")
         json.dump([rep["behaviour"]], open(bf, "w"))
         run_driver(ctx, drv, ["behave", "-in", bf, "-table", tf, "-out", out, "-seed", str(d.get("seed", 1))], "behave")
+    elif rep["kind"] == "conc":
+        if conc_stage(ctx, drv, table, tf, design=False) is None:
+            raise vlib.Inconclusive("the concurrent stage cannot run here (sinks missing)")
+        return
     else:
         raise vlib.Inconclusive("an unattributed sink contact cannot be replayed in isolation; re-run the tier with the seed")
     validate(ctx, table, out, "replay of " + os.path.basename(path))
